@@ -18,14 +18,15 @@ import (
 
 	"verif/checker/internal/ir"
 	"verif/checker/internal/load"
+	"verif/checker/internal/normalize"
 )
 
 type canonT struct {
 	p       *load.Program
-	field   map[*types.Var]string     // actual field -> canonical name
-	fn      map[string]*ssa.Function  // "pkgRel:Recv.name" -> function
-	fnName  map[*ssa.Function]string  // function -> canonical qualified name
-	typ     map[string]*types.Named   // "pkgRel:name" -> type
+	field   map[*types.Var]string      // actual field -> canonical name
+	fn      map[string]*ssa.Function   // "pkgRel:Recv.name" -> function
+	fnName  map[*ssa.Function]string   // function -> canonical qualified name
+	typ     map[string]*types.Named    // "pkgRel:name" -> type
 	typName map[*types.TypeName]string // type -> canonical name
 	notes   []string
 }
@@ -529,6 +530,8 @@ func (c *canonT) resolve() {
 			}
 		}
 	}
+	defer c.resolveRenamedBySignature()
+	defer c.resolveRenamedFields()
 	// ---------- lexer ----------
 	if peT := c.named("internal/lexer", "ParseError"); peT != nil && c.method(peT, "ident") == nil {
 		for _, fn := range c.methodsOf(peT) {
@@ -549,6 +552,189 @@ func (c *canonT) resolve() {
 }
 
 func isPtr(t types.Type) bool { _, ok := t.(*types.Pointer); return ok }
+
+// resolveRenamedFields: a field that the pinned tree's struct of the same (canonical) name does not have
+// is the absent field of the same type, matched in declaration order when there are several.
+func (c *canonT) resolveRenamedFields() {
+	fv := normalize.FieldVocab()
+	q := func(p *types.Package) string { return p.Name() }
+	for _, pk := range c.p.Closure {
+		sc := pk.Types.Scope()
+		for _, name := range sc.Names() {
+			tn, ok := sc.Lookup(name).(*types.TypeName)
+			if !ok {
+				continue
+			}
+			st, ok := tn.Type().Underlying().(*types.Struct)
+			if !ok {
+				continue
+			}
+			want, known := fv[pk.Types.Name()+"."+ir.TypeNameHook(tn)]
+			if !known {
+				continue
+			}
+			wantName := map[string]string{} // name -> type
+			var wantOrder []string
+			for _, w := range want {
+				i := strings.Index(w, ":")
+				wantName[w[:i]] = w[i+1:]
+				wantOrder = append(wantOrder, w[:i])
+			}
+			have := map[string]bool{}
+			var unknown []*types.Var
+			for i := 0; i < st.NumFields(); i++ {
+				f := st.Field(i)
+				cn := f.Name()
+				if a, ok := c.field[f]; ok {
+					cn = a
+				}
+				have[cn] = true
+				if _, ok := wantName[cn]; !ok {
+					unknown = append(unknown, f)
+				}
+			}
+			var absent []string
+			for _, w := range wantOrder {
+				if !have[w] {
+					absent = append(absent, w)
+				}
+			}
+			if len(unknown) == 0 || len(absent) == 0 {
+				continue
+			}
+			if len(unknown) == 1 && len(absent) == 1 {
+				c.aliasField(st, absent[0], unknown[0])
+				continue
+			}
+			// pair by type, in order
+			byTypeU := map[string][]*types.Var{}
+			for _, f := range unknown {
+				k := types.TypeString(f.Type(), q)
+				byTypeU[k] = append(byTypeU[k], f)
+			}
+			byTypeA := map[string][]string{}
+			for _, a := range absent {
+				byTypeA[wantName[a]] = append(byTypeA[wantName[a]], a)
+			}
+			for k, us := range byTypeU {
+				as := byTypeA[k]
+				if len(as) != len(us) {
+					continue
+				}
+				for i := range us {
+					c.aliasField(st, as[i], us[i])
+				}
+			}
+		}
+	}
+}
+
+// resolveRenamedBySignature: a function that is not in the pinned tree's vocabulary, whose package,
+// receiver and signature are those of exactly one vocabulary function that is absent from this tree
+// (and it is the only unknown function with that signature) is that function under a new name.
+// A wrong guess cannot hide anything: the rules then analyse it in the absent function's role.
+func (c *canonT) resolveRenamedBySignature() {
+	vocab := normalize.Vocab()
+	present := map[string]bool{}
+	var unknown []*ssa.Function
+	for _, fn := range c.p.ClosureFuncs() {
+		if fn.Parent() != nil || fn.Synthetic != "" {
+			continue
+		}
+		qn := ir.QualifiedName(fn)
+		present[qn] = true
+		if _, ok := vocab[qn]; !ok {
+			unknown = append(unknown, fn)
+		}
+	}
+	missing := map[string][]string{}
+	for n, sg := range vocab {
+		if !present[n] {
+			missing[sg] = append(missing[sg], n)
+		}
+	}
+	bySig := map[string][]*ssa.Function{}
+	for _, fn := range unknown {
+		k := normalize.SigKey(fn)
+		bySig[k] = append(bySig[k], fn)
+	}
+	for sg, fns := range bySig {
+		if len(fns) != 1 || len(missing[sg]) != 1 {
+			continue
+		}
+		fn, qn := fns[0], missing[sg][0]
+		// qn is "pkg.name", "pkg.(*T).m" or "pkg.T.m"
+		i := strings.Index(qn, ".")
+		if i < 0 || fn.Pkg == nil {
+			continue
+		}
+		rest := qn[i+1:]
+		rest = strings.Replace(rest, "(*", "", 1)
+		rest = strings.Replace(rest, ")", "", 1)
+		rel := c.p.Rel(fn.Pkg.Pkg.Path())
+		if _, taken := c.fn[rel+":"+rest]; taken {
+			continue
+		}
+		if _, aliased := c.fnName[fn]; aliased {
+			continue
+		}
+		c.aliasFn(rel, rest, fn)
+	}
+	// second pass: a method whose receiver was dropped (or added): same package, parameters and results
+	strip := func(sg string) string {
+		parts := strings.SplitN(sg, "|", 3)
+		if len(parts) != 3 {
+			return sg
+		}
+		return parts[0] + "||" + parts[2]
+	}
+	missing2 := map[string][]string{}
+	for n, sg := range vocab {
+		if !present[n] {
+			if _, taken := c.fn[relOfVocabName(c.p, n)]; !taken {
+				missing2[strip(sg)] = append(missing2[strip(sg)], n)
+			}
+		}
+	}
+	bySig2 := map[string][]*ssa.Function{}
+	for _, fn := range unknown {
+		if _, aliased := c.fnName[fn]; aliased {
+			continue
+		}
+		k := strip(normalize.SigKey(fn))
+		bySig2[k] = append(bySig2[k], fn)
+	}
+	for sg, fns := range bySig2 {
+		if len(fns) != 1 || len(missing2[sg]) != 1 {
+			continue
+		}
+		fn, qn := fns[0], missing2[sg][0]
+		key := relOfVocabName(c.p, qn)
+		if key == "" {
+			continue
+		}
+		c.fn[key] = fn
+		c.fnName[fn] = qn
+		c.notes = append(c.notes, "function "+ir.RawQualifiedName(fn)+" plays the role of "+qn+" (receiver dropped or added)")
+	}
+}
+
+// relOfVocabName turns "pkg.(*T).m" into the canon key "rel:T.m".
+func relOfVocabName(p *load.Program, qn string) string {
+	i := strings.Index(qn, ".")
+	if i < 0 {
+		return ""
+	}
+	pkg, rest := qn[:i], qn[i+1:]
+	rest = strings.Replace(rest, "(*", "", 1)
+	rest = strings.Replace(rest, ")", "", 1)
+	for _, pk := range p.Closure {
+		if pk.Types.Name() == pkg {
+			return p.Rel(pk.PkgPath) + ":" + rest
+		}
+	}
+	return ""
+}
 
 func exportedFn(p *load.Program, rel, name string) *ssa.Function {
 	sp := p.SPkg(rel)
